@@ -4,8 +4,9 @@
    scales (product of the factors along the chain of definitions) is
    Model/Registry + C15/C20. *)
 From Coq Require Import ZArith QArith Qabs List Bool.
-From QV Require Import Model.Num Model.Rounding Model.Quantity
-     Proofs.QuantityProofs Proofs.C13Proofs Proofs.C01Proofs.
+From QV Require Import Model.Num Model.Rounding Model.Quantity Model.Dim Model.Registry
+     Proofs.QuantityProofs Proofs.C13Proofs Proofs.C01Proofs Proofs.RegistryProofs
+     Proofs.DirectoryProofs Proofs.C02Proofs Proofs.ViewInv.
 
 (* target unit, and the amount multiplied by exactly the ratio of the scales
    (then the constructor, which rounds only for types with a quantum) *)
@@ -71,6 +72,33 @@ Theorem C01_incompatible : forall ce dm q v,
   same_cls (q_unit q) v = false -> convert ce dm q v = Err EIncompatibleUnits.
 Proof. exact convert_other_type. Qed.
 Print Assumptions C01_incompatible.
+
+(* the premises above are what every directory PRODUCES: in any directory
+   reachable by declarations a unit with a scale is linear ([lin]) ... *)
+Theorem C01_reachable_views_are_linear : forall dm s u,
+  Reach dm s -> In u (st_units s) -> ru_equiv u <> None -> lin (view s u) = true.
+Proof. exact view_lin. Qed.
+Print Assumptions C01_reachable_views_are_linear.
+
+(* ... all units of a quantized type share one absolute grid ... *)
+Theorem C01_reachable_views_share_grid : forall dm s u c q e,
+  Reach dm s -> In u (st_units s) -> find_cls s (ru_cls u) = Some c ->
+  rc_quantum c = Some q -> ru_equiv u = Some e -> ru_sf u = None ->
+  exists qu, u_quantum (view s u) = Some qu /\ qu * e == q.
+Proof. exact view_shared_grid. Qed.
+Print Assumptions C01_reachable_views_share_grid.
+
+(* ... and conversion between two scaled units of one unquantized type is the
+   exact ratio of their scales, the scale being what the unit's chain of
+   definitions denotes (C15_scale_denotes_definition) *)
+Theorem C01_in_every_reachable_directory : forall dm s ce a u v eu ev c,
+  Reach dm s -> In u (st_units s) -> In v (st_units s) -> ru_cls u = ru_cls v ->
+  ru_equiv u = Some eu -> ru_equiv v = Some ev ->
+  find_cls s (ru_cls v) = Some c -> rc_quantum c = None -> ru_sf v = None ->
+  exists r, convert ce dm (mkQty a (view s u)) (view s v) = Ok r /\ q_unit r = view s v /\
+            q_amt r == a * (eu / ev) /\ q_amt r * ev == a * eu.
+Proof. exact convert_on_directory. Qed.
+Print Assumptions C01_in_every_reachable_directory.
 
 (* non-vacuity: mi -> km -> in on concrete views *)
 Definition ex_mi := mkUnit 1 3 true (Some (1609344 # 1000)) None.
